@@ -30,11 +30,12 @@ FOCUS = {"setcallback", "_local_receive", "_local_close", "_no_longer_opened", "
          "putreceived", "executetask", "waitclose"}
 
 
-def strategy(max_convs=2, max_sib=1, max_pre=40, preempts=3):
+def strategy(max_convs=2, max_sib=1, max_pre=40, preempts=3, rich_only=False):
     multi = st.fixed_dictionaries(dict(members=st.lists(st.lists(TP.payloads(), max_size=4), min_size=2, max_size=4),
                                        endmarker=st.booleans()))
     return st.fixed_dictionaries(dict(
-        convs=st.lists(TP.c10_params(), min_size=0, max_size=max_convs),
+        convs=st.lists(TP.c10_params(rich=True) if rich_only else st.one_of(TP.c10_params(), TP.c10_params(rich=True)),
+                       min_size=0, max_size=max_convs),
         multi=st.one_of(st.none(), st.none(), multi),
         siblings=st.lists(TP.c02_params(max_items=3, allow_sub=False), max_size=max_sib),
         sparse=st.fixed_dictionaries(dict(
@@ -104,6 +105,9 @@ def labels_of(case):
         labs.append("setcallback-before-first")
     if case["multi"]:
         labs.append("multichannel")
+    if any(len(p["items"]) > max(p["k_before"], min(len(p["items"]), p.get("split", 0))) and p["k_before"] < len(p["items"])
+           for p in case["convs"]):
+        labs.append("backlog+in-flight")
     return labs
 
 
@@ -126,7 +130,7 @@ class Sched(Part):
             pre = sorted({1 + (f * max(1, out0.lines)) // 1000 for f in case["preempt"]})
         out, ex, sib = run_case(case, preempt_at=pre)
         judge(case, out, ex, sib)
-        nt = any(p["late"] or p["k_before"] < len(p["items"]) for p in case["convs"]) or bool(case["multi"])
+        nt = any(p["late"] or ex_.get("in_flight") or ex_.get("backlog") for p, ex_ in zip(case["convs"], ex)) or bool(case["multi"])
         return dict(labels=labels_of(case), nontrivial=nt,
                     sample={"convs": [{k: (v if k != "items" else len(v)) for k, v in p.items()} for p in case["convs"]],
                             "multi": bool(case["multi"]), "switches": out.sched.switches})
@@ -141,7 +145,7 @@ class Focused(Part):
         D.preimport()
 
     def strategy(self, ctx):
-        return strategy(max_convs=1, max_sib=0, max_pre=0, preempts=0)
+        return strategy(max_convs=1, max_sib=0, max_pre=0, preempts=0, rich_only=True)
 
     def run(self, case, ctx):
         single = case.get("single")
